@@ -89,6 +89,42 @@ pub fn run(c: &mut Collector, a: &Args) {
     }
     // raw scores: extremes, around zero, sampled
     let mut raws: Vec<i32> = vec![i32::MIN, i32::MIN + 1, -1, 0, 1, i32::MAX - 1, i32::MAX, 255, 256, -256, 65535, 65536, -65536];
+    // structured values: around every power of two, simple fractions of the extremes, powers of ten
+    // (in-band sentinels such as MAX/2, 2^30-1, 10^9 would alias exactly these)
+    for bit in 0..31u32 {
+        let b = 1i64 << bit;
+        for d in [-2i64, -1, 0, 1, 2] {
+            for sign in [1i64, -1] {
+                let v = sign * (b + d);
+                if v >= i32::MIN as i64 && v <= i32::MAX as i64 {
+                    raws.push(v as i32);
+                }
+            }
+        }
+    }
+    for div in [2i32, 3, 4, 5, 7, 8, 10, 16, 100, 1000] {
+        for d in [-1i32, 0, 1] {
+            raws.push(i32::MAX / div + d);
+            raws.push(i32::MIN / div + d);
+            raws.push(-(i32::MAX / div) + d);
+        }
+    }
+    let mut ten = 1i64;
+    for _ in 0..10 {
+        for d in [-1i64, 0, 1] {
+            for sign in [1i64, -1] {
+                let v = sign * ten + d;
+                if v >= i32::MIN as i64 && v <= i32::MAX as i64 {
+                    raws.push(v as i32);
+                }
+            }
+        }
+        ten *= 10;
+    }
+    for v in [30000, 32000, 32767, 32768, 100000, 1_000_000, 999_999, 20000, 10000, 9999, 31000, 29000] {
+        raws.push(v);
+        raws.push(-v);
+    }
     for _ in 0..(if a.small { 50 } else { 100_000 / a.nshards.max(1) }) {
         raws.push(rng.next_u64() as i32);
     }
